@@ -122,7 +122,7 @@ def run_unit(unit, repo, verif, tier='quick', canary=True, workdir=None):
     """-> dict(status in {'verified','violation','undecided'}, ...)"""
     res = {'unit': unit, 'status': 'undecided', 'reason': None, 'errors': [], 'obligations': 0, 'discharged': 0}
     tpl = os.path.join(verif, 'units', unit + '.rs')
-    bdir = workdir or os.path.join(verif, 'build')
+    bdir = workdir or os.environ.get('VERIF_BUILD_DIR') or os.path.join(verif, 'build')
     os.makedirs(bdir, exist_ok=True)
     try:
         text, info = build_unit(tpl, repo, verif)
